@@ -90,6 +90,9 @@ type Sched struct {
 
 	Panics []string // unrecovered panics in managed goroutines ("would have crashed the process")
 	armSeq int
+	// Policy selects the canonical internal schedule used between environment events (0: the running goroutine
+	// carries on, then lowest id; 1 / 2: always switch, to the highest / lowest other id)
+	Policy int
 	// Recovered: values returned non-nil by the program's own recover() calls (rewritten to NoteRecover)
 	Recovered []string
 	Events    []string // pool tracker and other runtime events
@@ -120,12 +123,16 @@ var S *Sched
 
 // New starts a fresh execution: resets pools, clock, ids.
 //
+// DefaultPolicy is the Policy of every execution created from now on (set by the framework, which runs the
+// event-level families of a check once per policy).
+var DefaultPolicy int
+
 //go:norace
 func New() *Sched {
 	if S != nil {
 		S.Shutdown()
 	}
-	s := &Sched{MaxStep: 20000000}
+	s := &Sched{MaxStep: 20000000, Policy: DefaultPolicy}
 	s.driver = newParker()
 	resetPools()
 	S = s
@@ -334,6 +341,23 @@ func (s *Sched) dispatch(from *G) bool {
 	}
 	curEn := from != nil && en[0] == from
 	next := en[s.choose(len(en), curEn, 't')]
+	if !s.Explore && s.Policy != 0 {
+		// an alternative canonical schedule for event-level exploration: never let the running goroutine carry
+		// on when another one of the program can run, and prefer the one created last (policy 1) or first
+		// (policy 2). Environment threads (Low) still only run when nothing else can.
+		var prog []*G
+		for _, g := range en {
+			if !g.Low && g != from {
+				prog = append(prog, g)
+			}
+		}
+		if len(prog) > 0 {
+			next = prog[0]
+			if s.Policy == 1 {
+				next = prog[len(prog)-1]
+			}
+		}
+	}
 	if s.Debug && s.Explore && len(en) > 1 {
 		s.noteAlts(en)
 	}
